@@ -49,7 +49,7 @@ def hooks_alive() -> bool:
 KIND = {"rhs": "rhs", "monitor_values": "monitor", "missing_values": "missing", "scheme": "scheme"}
 
 
-def emit_event_to_traces(ev, model_id, monitor_index=None):
+def emit_event_to_traces(ev, model_id, monitor_index=None, zero_slope=None):
     """One Emit event -> list of TraceEmit records (one per function in the emitted text)."""
     gen = ev["generator"]
     backend = "c" if gen.startswith("C") else ("jax" if gen.startswith("Jax") else "python")
@@ -76,6 +76,12 @@ def emit_event_to_traces(ev, model_id, monitor_index=None):
             "monitor_index": monitor_index or {}, "requested": ev.get("requested") or {},
             "derivs": {f"d{s}_dt": s for s in sidx},
             "formals": f["args"], "needs_alloc": backend == "python", "expect_n": n, "stmts": stmts,
+            # C07 (rule scheme-choice): which states the caller asked to treat with Rush-Larsen
+            "check_choice": kind == "scheme" and "rush_larsen" in str(ev.get("scheme")) and zero_slope is not None,
+            "all_stiff": "generalized" in str(ev.get("scheme")),
+            "stiff": list((ev.get("kwargs") or {}).get("stiff_states") or []),
+            "zero_slope": sorted(zero_slope or []),
+            "lin": {f"d{s}_dt": f"d{s}_dt_linearized" for s in sidx},
         })
     return out
 
@@ -150,6 +156,8 @@ def record_model(text: str, model_id: str, backends=("python", "jax", "c"), sche
 
     ode = gx.load(text, name=model_id)
     traces, sorts, decides = [], [], []
+    # states whose rate expression does not mention the state itself (through the text, not through sympy)
+    zero_slope = [d.state.name for d in ode.state_derivatives if d.state.name not in d.value.dependencies]
     for backend in backends:
         for ru in remove_unused:
             if backend == "c":
@@ -173,7 +181,7 @@ def record_model(text: str, model_id: str, backends=("python", "jax", "c"), sche
                     cg.scheme(get_scheme(sc), **kw)
             for ev in rec.events:
                 if ev["ev"] == "Emit":
-                    traces.extend(emit_event_to_traces(ev, model_id, mon))
+                    traces.extend(emit_event_to_traces(ev, model_id, mon, zero_slope))
                 elif ev["ev"] in ("SortAdd", "SortOrder"):
                     sorts.append(ev)
                 elif ev["ev"] == "SchemeDecide":
